@@ -12,6 +12,7 @@
 #ifndef VERIF_RUNNER_H_
 #define VERIF_RUNNER_H_
 
+#include <dirent.h>
 #include <execinfo.h>
 #include <fcntl.h>
 #include <signal.h>
@@ -305,6 +306,69 @@ class Reporter {
 
 using CaseFn = std::function<void(int64_t k, Rng &rng, Reporter &rep)>;
 
+// waitpid() with a safety net for a worker that is blocked for good: the CPU watchdog (ITIMER_PROF) cannot fire in a
+// process that uses no CPU. If the worker has used no CPU time, has not moved to another case and has every
+// thread asleep for kBlockedSeconds of wall time, it is killed and reported (returns true). A worker that is merely
+// starved on a loaded machine is runnable ('R'), so load alone never triggers this.
+inline bool WaitWorker(pid_t pid, int *st, volatile const int64_t *cur_case) {
+  const double kBlockedSeconds = 120;
+  auto now = [] { timespec ts; clock_gettime(CLOCK_MONOTONIC, &ts); return ts.tv_sec + ts.tv_nsec * 1e-9; };
+  auto cpu_and_state = [&](long *cpu, bool *all_asleep) {
+    *cpu = -1; *all_asleep = false;
+    char path[64], buf[1024];
+    snprintf(path, sizeof path, "/proc/%d/stat", static_cast<int>(pid));
+    int fd = open(path, O_RDONLY);
+    if (fd < 0) return;
+    ssize_t n = read(fd, buf, sizeof buf - 1);
+    close(fd);
+    if (n <= 0) return;
+    buf[n] = 0;
+    const char *rp = strrchr(buf, ')');
+    if (!rp) return;
+    char state = 0; long ut = 0, stt = 0;
+    // fields after ")": state ppid pgrp session tty tpgid flags minflt cminflt majflt cmajflt utime stime
+    if (sscanf(rp + 1, " %c %*d %*d %*d %*d %*d %*u %*u %*u %*u %*u %ld %ld", &state, &ut, &stt) != 3) return;
+    *cpu = ut + stt;
+    bool asleep = true;
+    snprintf(path, sizeof path, "/proc/%d/task", static_cast<int>(pid));
+    if (DIR *d = opendir(path)) {
+      while (dirent *e = readdir(d)) {
+        if (e->d_name[0] == '.') continue;
+        char tp[128], tb[512];
+        snprintf(tp, sizeof tp, "/proc/%d/task/%s/stat", static_cast<int>(pid), e->d_name);
+        int tfd = open(tp, O_RDONLY);
+        if (tfd < 0) continue;
+        ssize_t tn = read(tfd, tb, sizeof tb - 1);
+        close(tfd);
+        if (tn <= 0) continue;
+        tb[tn] = 0;
+        const char *trp = strrchr(tb, ')');
+        if (trp && trp[1] == ' ' && trp[2] != 'S') asleep = false;
+      }
+      closedir(d);
+    } else asleep = state == 'S';
+    *all_asleep = asleep;
+  };
+  double idle_since = now(), started = idle_since;
+  long last_cpu = -2; int64_t last_case = -2;
+  for (;;) {
+    pid_t r = waitpid(pid, st, WNOHANG);
+    if (r == pid) return false;
+    if (r < 0) { *st = 0; return false; }
+    const double t = now();
+    usleep(t - started < 0.05 ? 500 : t - started < 2 ? 5000 : 100000);
+    if (t - started < 2) continue;
+    long cpu; bool asleep;
+    cpu_and_state(&cpu, &asleep);
+    if (cpu != last_cpu || *cur_case != last_case || !asleep) { last_cpu = cpu; last_case = *cur_case; idle_since = t; continue; }
+    if (t - idle_since > kBlockedSeconds) {
+      kill(pid, SIGKILL);
+      waitpid(pid, st, 0);
+      return true;
+    }
+  }
+}
+
 namespace detail {
 inline Shm *&g_shm() { static Shm *s = nullptr; return s; }
 inline int &g_crash_fd() { static int fd = -1; return fd; }
@@ -313,6 +377,10 @@ inline void OnVtAlarm(int) {
   _exit(97);
 }
 inline void OnCrash(int sig) {
+  // The crash may have happened inside malloc (lock held) or on several threads at once: whatever goes wrong in
+  // here, the default action of SIGALRM ends the process after 10 s, so a worker never blocks in its crash handler.
+  signal(SIGALRM, SIG_DFL);
+  alarm(10);
   int fd = g_crash_fd();
   if (fd >= 0) {
     const char *m = "CRASH signal\n";
@@ -375,6 +443,7 @@ inline int RunHarness(int argc, char **argv, const char *default_prop, CaseFn fn
     {
       std::string cp = a.out + ".crash." + std::to_string(getpid());
       detail::g_crash_fd() = open(cp.c_str(), O_WRONLY | O_CREAT | O_TRUNC, 0666);
+      { void *warm[4]; (void)backtrace(warm, 4); }  // loads libgcc_s now: the first backtrace() call dlopen()s and mallocs
       signal(SIGSEGV, detail::OnCrash);
       signal(SIGBUS, detail::OnCrash);
       signal(SIGFPE, detail::OnCrash);
@@ -449,8 +518,9 @@ inline int RunHarness(int argc, char **argv, const char *default_prop, CaseFn fn
       _exit(0);
     }
     int st = 0;
-    waitpid(pid, &st, 0);
-    if (WIFEXITED(st) && WEXITSTATUS(st) == 0) { pos = ks.size(); break; }
+    bool blocked = WaitWorker(pid, &st, &shm->cur_case);
+    if (blocked) snprintf(const_cast<char *>(shm->msg), sizeof shm->msg, "blocked: no CPU use, no progress and every thread asleep for 120 s (deadlock)");
+    if (!blocked && WIFEXITED(st) && WEXITSTATUS(st) == 0) { pos = ks.size(); break; }
     // Worker died.
     int64_t k = shm->cur_case;
     size_t np = static_cast<size_t>(shm->next_pos);
@@ -470,7 +540,7 @@ inline int RunHarness(int argc, char **argv, const char *default_prop, CaseFn fn
         _exit(0);
       }
       int st2 = 0;
-      waitpid(p2, &st2, 0);
+      if (WaitWorker(p2, &st2, &shm->cur_case)) snprintf(const_cast<char *>(shm->msg), sizeof shm->msg, "blocked: no CPU use, no progress and every thread asleep for 120 s (deadlock)");
       if (WIFEXITED(st2) && WEXITSTATUS(st2) == 0) {
         Reporter::WriteAll(out_fd, "{\"t\":\"inconcl\",\"k\":" + std::to_string(k) + ",\"why\":\"cpu-watchdog-once\"}\n");
         pos = np;
